@@ -3,6 +3,9 @@
 import json
 SC="stateless model checking of the implementation under a controlled scheduler (iterative preemption/delay bounding)"
 CHECKS = {
+ "C17": dict(engine="vsched", technique=SC+" + explicit-state search of the bounded cache to fixpoint",
+   text="the real dns.Resolver runs under the controlled scheduler with a real direct UDP client on loopback and a stub TCP client against a scripted upstream: every script with up to two non-default behaviours per lookup (valid, NXDOMAIN+SOA, NODATA+SOA, SERVFAIL, truncated, foreign ID, foreign source, not-a-response, RA=0, garbage, silence, TCP close mid-message), both arrival orders, UDP/TCP/both; lookup histories around TTL and failure-caching boundaries on the virtual clock; BoundedCache against a reference LRU to fixpoint",
+   note="poisoned datagrams carry addresses no acceptable response carries; expiry bound from the statement (smallest answer TTL, else negative/failure caching time)"),
  "C12": dict(engine="vsched", technique=SC+" over real loopback sockets with scheduler-mediated readiness and virtual NAT timers",
    text="idle eviction and restart, a packet racing with the NAT timeout, Stop with packets in flight, Stop during session initialisation, router rejection, failing sends (EPERM as an environment deviation) and two sessions are explored on the real relay services within a delay bound; oracles: no panic, no deadlock, table and sockets released after eviction, a new working session afterwards, and Stop returns with all NAT timers frozen, every relay goroutine ended and every relay socket closed",
    note="timers fire at quiescence, in either order when due at the same instant; promptness = Stop completes with timers later than 1 s frozen"),
